@@ -139,10 +139,33 @@ JudgeC03(t, c) ==
                          [x |-> x, line |-> j, src |-> s[j].ds, obs |-> d[j].ds]) >>) >>) >>)
 
 ----------------------------------------------------------------------------
+(* C08 (copy clause): CopyDecay NEW OLD gives NEW a table equal to OLD's in everything but the mother,
+   for every CopyDecay statement (several copies of one source included); c.obs = parse of src *)
+CopyPairs(src) ==
+    LET ks == CopyKeys(src) IN {<<ks[i], LastDef(src, "CopyDecay", ks[i]).src>> : i \in DOMAIN ks}
+JudgeC08C(t, c) ==
+    LET src == c.src obs == c.obs first == FirstBlocks(src) IN
+    IF ParseFails(src) THEN TRUE
+    ELSE IF ~Chk(t, "C08:text-accepted", ~obs.fails) THEN FALSE
+    ELSE AllOf(<<
+        ChkD(t, "C08:every-table-listed-once", ObsNoDup(obs), [mothers |-> obs.mothers]),
+        \A pr \in CopyPairs(src) :
+            IF HasTable(first, pr[2]) /\ ~HasTable(first, pr[1])
+            THEN AllOf(<<
+                ChkD(t, "C08:copy-has-a-table", ObsHas(obs, pr[1]), [new |-> pr[1], old |-> pr[2], mothers |-> obs.mothers]),
+                ObsHas(obs, pr[1]) /\ ObsHas(obs, pr[2]) =>
+                    ChkD(t, "C08:copy-equals-source-but-for-the-mother",
+                         CoreLines(ObsTable(obs, pr[1])) = CoreLines(ObsTable(obs, pr[2])), [new |-> pr[1], old |-> pr[2]]) >>)
+            ELSE HasTable(first, pr[1]) \/
+                 ChkD(t, "C08:copy-without-source-adds-nothing", ~ObsHas(obs, pr[1]) \/ pr[1] \in CDecayNames(src),
+                      [new |-> pr[1], old |-> pr[2]]) >>)
+
+----------------------------------------------------------------------------
 Judge(t, c) ==
     CASE c.prop = "C01" -> JudgeC01(t, c)
       [] c.prop = "C03" -> JudgeC03(t, c)
       [] c.prop = "C05" -> JudgeC05(t, c)
+      [] c.prop = "C08C" -> JudgeC08C(t, c)
       [] c.prop = "C09" -> JudgeC09(t, c)
       [] c.prop = "C10" -> JudgeC10(t, c)
       [] OTHER -> Chk(t, "MACHINERY:unknown-prop", FALSE)
